@@ -136,6 +136,12 @@ func SizeBound(n int) {}
 // Unwind sets the per-site bound on symbolic loop iterations.
 func Unwind(n int) {}
 
+// NoSpin declares that on this harness's bounded input no loop of the code
+// under test legitimately runs more than n times in one call: the engine reports
+// a loop that does as a violation ("spin"), which the native replay confirms
+// with a watchdog.
+func NoSpin(n int) {}
+
 // MaxSteps sets the per-path instruction budget.
 func MaxSteps(n int) {}
 
@@ -244,9 +250,36 @@ func runOne(c *rcase, f func()) (outcome string) {
 			}
 		}
 	}()
-	f()
-	return "ok"
+	// watchdog: a case that does not finish is a spin (the goroutine cannot be
+	// stopped; the process ends with the test binary)
+	done := make(chan string, 1)
+	go func() {
+		defer func() {
+			if r := recover(); r != nil {
+				switch r := r.(type) {
+				case assumeStop:
+					done <- "assume-false"
+				case assertFail:
+					done <- "assert:" + r.label
+				case exhausted:
+					done <- "draw-mismatch:" + r.want
+				default:
+					done <- "panic:" + oneLine(fmt.Sprint(r))
+				}
+			}
+		}()
+		f()
+		done <- "ok"
+	}()
+	select {
+	case o := <-done:
+		return o
+	case <-time.After(spinTimeout):
+		return "spin:no-spin"
+	}
 }
+
+var spinTimeout = 60 * time.Second
 
 func oneLine(s string) string {
 	s = strings.ReplaceAll(s, "\n", " ")
